@@ -164,6 +164,9 @@ func (e *SpecEnv) state() *State { return e.st }
 
 func (e *SpecEnv) eval(ex Expr) Val {
 	x := e.x
+	// specification terms may mention bound variables: never name sub-terms or add assumptions
+	x.pure++
+	defer func() { x.pure-- }()
 	switch n := ex.(type) {
 	case *IntLit:
 		return Term{n.V, intT}
@@ -573,6 +576,9 @@ func (e *SpecEnv) call(n *CallE) Val {
 	case "fresh": // object allocated after function entry
 		r := e.evalRef(n.Args[0])
 		return Term{app(">=", r, e.entryAlloc), boolT}
+	case "allocated": // object exists in the state the expression is evaluated in
+		r := e.evalRef(n.Args[0])
+		return Term{and(app("<", "0", r), app("<", r, e.st.allocCtr)), boolT}
 	case "ref":
 		return Term{e.evalRef(n.Args[0]), intT}
 	case "root":
@@ -599,7 +605,7 @@ func (e *SpecEnv) call(n *CallE) Val {
 	case "res":
 		ev := e.events(n.Args[0])
 		if len(ev) == 0 {
-			bail("spec: res(%s): function was not called on this path (guard with called())", exprString(n.Args[0]))
+			return e.undefined(n.Args[0], n.Args[1:], true)
 		}
 		i := 0
 		if len(n.Args) > 1 {
@@ -609,7 +615,7 @@ func (e *SpecEnv) call(n *CallE) Val {
 	case "arg":
 		ev := e.events(n.Args[0])
 		if len(ev) == 0 {
-			bail("spec: arg(%s): function was not called on this path", exprString(n.Args[0]))
+			return e.undefined(n.Args[0], n.Args[1:], false)
 		}
 		return ev[len(ev)-1].Args[mustInt(n.Args[1])]
 	case "before":
@@ -627,6 +633,35 @@ func (e *SpecEnv) call(n *CallE) Val {
 	}
 	bail("spec: unknown function %s", n.Fun)
 	return nil
+}
+
+// undefined: res()/arg() of a function that was not called on this path is an unconstrained
+// value (so a clause that depends on it is provable only where its guard is false).
+func (e *SpecEnv) undefined(f Expr, idx []Expr, isRes bool) Val {
+	x := e.x
+	i := 0
+	if len(idx) > 0 {
+		i = int(mustInt(idx[0]))
+	}
+	if id, ok := f.(*Ident); ok {
+		var fp *FuncParam
+		if e.fr != nil {
+			fp, _ = e.fr.params[id.Name].(*FuncParam)
+		}
+		if v, ok := e.vars[id.Name].(*FuncParam); ok {
+			fp = v
+		}
+		if fp != nil && fp.Sig != nil {
+			tup := fp.Sig.Params()
+			if isRes {
+				tup = fp.Sig.Results()
+			}
+			if i < tup.Len() {
+				return x.havocVal(e.st, "undef", tup.At(i).Type())
+			}
+		}
+	}
+	return Term{x.declare(e.st, "undef", "Int"), nil}
 }
 
 func mustInt(ex Expr) int64 {
